@@ -27,8 +27,12 @@ def gen_history(rng, n, big=True):
         elif k < 0.76:
             c = rng.choice([0, 1, 1, 2, 3, size_guess, 10 ** 7])
             lines.append("delete %d %d" % (idx, c)); size_guess = max(0, size_guess - min(c, 3))
-        elif k < 0.90:
+        elif k < 0.86:
             lines.append("uplete %d %d" % (idx, rng.choice([0, 1, 1, 2, size_guess, 10 ** 7])))
+        elif k < 0.89:
+            lines.append("spush %d %s" % (v, o)); size_guess += 1
+        elif k < 0.91:
+            lines.append("spop"); size_guess = max(0, size_guess - 1)
         elif k < 0.94:
             lines.append("clear"); size_guess = 0
         else:
@@ -48,6 +52,37 @@ def gen_heap(rng, n):
         else:
             lines.append("hupd %d %d" % (rng.randrange(0, sz + 1), rng.randrange(0, 40)))
     return lines
+
+
+def gen_pheap(rng, n):
+    """heap whose items carry a position back-pointer (heap_pos_offset set): push / delete-at / pop / update-at;
+    keys from a small range so that equal keys (no move, no replacement) are frequent"""
+    lines = ["new"]
+    sz = 0
+    hi = rng.choice([4, 10, 40, 1000])
+    for _ in range(n):
+        k = rng.random()
+        if k < 0.45 or sz == 0:
+            lines.append("ppush %d" % rng.randrange(0, hi)); sz += 1
+        elif k < 0.62:
+            lines.append("pdel %d" % rng.choice([0, sz - 1, sz, rng.randrange(0, sz + 1)])); sz = max(0, sz - 1)
+        elif k < 0.72:
+            lines.append("ppop"); sz = max(0, sz - 1)
+        else:
+            lines.append("pupd %d %d" % (rng.choice([0, sz - 1, sz, rng.randrange(0, sz + 1)]), rng.randrange(0, hi)))
+    return lines
+
+
+def exhaustive_pheap():
+    """all push orders of 4 distinct keys followed by every (delete-at | update-at to a smaller/equal/larger key) —
+    every sift_up / sift_down path of a 4-item heap, with back-pointers"""
+    out = []
+    for perm in itertools.permutations([1, 3, 5, 7]):
+        for tail in [["pdel %d" % i] for i in range(5)] + [["pupd %d %d" % (i, v)] for i in range(4) for v in (0, 4, 8, perm[0])] + [["ppop", "ppop"]]:
+            out.append("new")
+            out.extend("ppush %d" % k for k in perm)
+            out.extend(tail)
+    return out
 
 
 def exhaustive_small():
@@ -102,6 +137,8 @@ def oracle(lines, cout):
     shadow = []
     heap = []
     prev_h = []
+    pheap = []
+    prev_p = []
     for i, l in enumerate(lines):
         if i >= len(cout):
             return (i, "no output for this op (crash or hang)")
@@ -110,11 +147,38 @@ def oracle(lines, cout):
             return (i, "call did not return")
         w = l.split()
         if w[0] == "new":
-            shadow, heap, prev_h = [], [], []
+            shadow, heap, prev_h, pheap, prev_p = [], [], [], [], []
             continue
         if o == "bad-op":
             continue
         try:
+            if w[0] in ("ppush", "pdel", "ppop", "pupd"):
+                if o.startswith("offset-not-kept"):
+                    return (i, "hawk_arr_getheapposoffset does not return what hawk_arr_setheapposoffset stored")
+                body = o[o.index("[") + 1:o.index("]")]
+                items = [x.strip().split(":") for x in body.split(",") if x.strip()]
+                if any(a == "?" for a, b in items):
+                    return (i, "heap has an empty slot below its size: %s" % body)
+                pk = [int(a) for a, b in items]
+                pp = [int(b) for a, b in items]
+                if w[0] == "ppush":
+                    pheap = pheap + [int(w[1])]
+                elif w[0] in ("pdel", "ppop"):
+                    k = int(w[1]) if w[0] == "pdel" else 0
+                    if k < len(prev_p):
+                        pheap = list(pheap); pheap.remove(prev_p[k])
+                elif w[0] == "pupd":
+                    k = int(w[1])
+                    if k < len(prev_p):
+                        pheap = list(pheap); pheap.remove(prev_p[k]); pheap.append(int(w[2]))
+                prev_p = pk
+                if sorted(pk) != sorted(pheap):
+                    return (i, "heap contents %s are not the expected multiset %s" % (pk, sorted(pheap)))
+                if any(pk[j] > pk[(j - 1) // 2] for j in range(1, len(pk))):
+                    return (i, "heap order broken: %s" % pk)
+                if any(pp[j] != j for j in range(len(pp))):
+                    return (i, "position back-pointer wrong: items (key:pos) %s — some item does not record the slot it is in" % body)
+                continue
             if w[0][0] == "h":
                 body = o[o.index("[") + 1:o.index("]")]
                 h = [int(x) for x in body.split(",") if x.strip()]
@@ -138,6 +202,11 @@ def oracle(lines, cout):
         except Exception as e:
             return (i, "unparsable impl output %r" % o[:100])
         ok = ret not in ("ENOMEM", "EINVAL", "EBUFFULL", "NULL", "E?")
+        if w[0] == "spush":
+            w = ["insert", str(len(shadow)), w[1]]
+        elif w[0] == "spop":
+            w = ["delete", str(max(0, len(shadow) - 1)), "1"]
+            ret = "1" if shadow else "0"
         if w[0] in ("insert", "upsert", "update") and ok:
             pos, v = int(w[1]), int(w[2])
             if w[0] == "update" or (w[0] == "upsert" and pos < len(shadow)):
@@ -249,6 +318,9 @@ def run(ctx):
         lines += gen_history(rng, rng.randrange(3, 40))
     for _ in range(nhist // 3):
         lines += gen_heap(rng, rng.randrange(3, 60))
+    lines += exhaustive_pheap()
+    for _ in range(nhist // 3):
+        lines += gen_pheap(rng, rng.randrange(3, 60))
     blocks = split_blocks(lines)
     # batches of whole histories, run in parallel; each batch gets a time budget proportional to its size
     batches, cur, n = [], [], 0
@@ -344,11 +416,12 @@ def run(ctx):
     nontriv = len({tuple(b) for b in blocks if nontrivial_signature(b)})
     samples = [" ; ".join(b[:8]) for b in blocks[ncorpus and 1 or 0:][-3:]] + [" ; ".join(blocks[len(blocks) // 2][:10])]
     return C.finish(ctx, [proof], evaluations, nontriv,
-                    "histories = corpus + all 16^3 sequences over a 16-op alphabet + seeded random histories (indices around 0/63..65/127..129/1000/10^6 and size±1, allocator refusal scripts) + random heap histories + hawk-level hawk::array programs; "
+                    "histories = corpus + all 16^3 sequences over a 16-op alphabet + seeded random histories (indices around 0/63..65/127..129/1000/10^6 and size±1, allocator refusal scripts) + random heap histories + heaps with position back-pointers (all 24 push orders of 4 keys x every delete/update/pop, and random histories) + stack push/pop + hawk-level hawk::array programs; "
                     "every op's return value, callback events and full (size,tally,capa,slot table) dump compared with the Lean model; distinct_nontrivial = distinct histories containing growth to index>=128 or a shifting delete after an insert",
                     samples, extra_cov=dict(op_distribution=dist, histories=len(blocks), impl_status=status),
                     trusted=["arr.c modelled by hand in HawkModel/Arr.lean (slot table beyond `size` not modelled; payload = small integers; INLINE copier not exercised)",
-                             "heap_pos_offset back-pointer maintenance is not modelled"],
+                             "heap_pos_offset back-pointers: items modelled as (key,pos) values; a slot store and its HEAP_UPDATE_POS are one model step (`stamp`), pointer aliasing inside a sift is not modelled but every dump compares each item's pos field",
+                             "hawk_arr_walk/rwalk (caller-directed traversal) are not modelled"],
                     assumptions=["allocator modelled as an oracle answering each request", "indices < 2^63"])
 
 
